@@ -147,6 +147,7 @@ pub fn check_case(c: &Case, label: &str) -> CaseResult {
                 "digit-symbols" => "from:digit-symbols",
                 "racket" => "from:racket",
                 "near-limit-nesting" => "from:near-limit-nesting",
+                "numeric-literal" => "from:numeric-literal",
                 _ => "from:mutated-or-random",
             });
             if !fold_is_identity(&p, &q, &mv) {
@@ -279,6 +280,18 @@ pub fn g_case(max_len: usize) -> BS<(Case, &'static str)> {
         1 => g_digit_symbols(),
         1 => g_racket(),
         4 => (g_input(max_len), g_qopt_index()).prop_map(|((text, l), q)| (Case { text, q }, l)),
+        // numeric literals in every spelling of C05's grammars (radix prefixes,
+        // long digit strings, exponents): accepted ones are numbers, and the
+        // printer's normalised spelling has to denote the same number
+        2 => (crate::props::c05::g_lit(), g_qopt_index(), 0u8..3).prop_map(|((l, _), q, wrap)| {
+            let t = l.text();
+            let text = match wrap {
+                0 => t,
+                1 => format!("({} x)", t),
+                _ => format!("#({})", t),
+            };
+            (Case { text: text.into_bytes(), q }, "numeric-literal")
+        }),
     ]
     .boxed()
 }
